@@ -102,6 +102,7 @@ type uniqueID struct {
 func (u *uniqueID) sample() [24]byte {
 	u.counter = u.counter.Add(u.counter, common.Big1)
 	var id [24]byte
-	copy(id[:], u.counter.Bytes())
+	// fixed-width encoding: different counter values never produce the same ID
+	u.counter.FillBytes(id[:])
 	return id
 }
